@@ -131,11 +131,11 @@ class Dds:
         f = total - index
 
         def setf(n, v):
-            pa.fields[pa.names.index(n)] = v
+            pa.set(n, v)
         st.ctx.ranges[pa.get('sample_rate_hz').term.as_single_atom()] = (Fr(fs_range[0]), Fr(fs_range[1]))
         # `rollover_mask` / `last_accumulator` are private bookkeeping the properties do not talk about: optional (a
         # mask kept as an associated constant, a dropped write-only copy are the same accumulator)
-        if 'rollover_mask' in pa.names:
+        if pa.has('rollover_mask'):
             setf('rollover_mask', Num(Poly.const((1 << total) - 1), 'u32'))
         if acc == 'pair':
             I = st.ctx.sym_range(name + '.I', 0, (1 << index) - 1, integer=True)
@@ -145,7 +145,7 @@ class Dds:
             setf('accumulator', Num(acc, 'u32'))
         else:
             st.ctx.ranges[pa.get('accumulator').term.as_single_atom()] = (Fr(0), Fr((1 << total) - 1))
-        if 'last_accumulator' in pa.names:
+        if pa.has('last_accumulator'):
             st.ctx.ranges[pa.get('last_accumulator').term.as_single_atom()] = (Fr(0), Fr((1 << total) - 1))
         if inc_range is not None:
             st.ctx.ranges[pa.get('increment').term.as_single_atom()] = (Fr(inc_range[0]), Fr(inc_range[1]))
@@ -159,10 +159,10 @@ class Dds:
     def make_adsr(self, it, st, state, total, index, **kw):
         a = it.sym_value(st, adt_ty(ADSR), 'self')
         pa = self.make_pa(it, st, total, index, name='self.pa', **kw)
-        a.fields[a.names.index('phase_accumulator')] = pa
-        a.fields[a.names.index('state')] = make_enum(self.facts, STATE, state)
+        a.set('phase_accumulator', pa)
+        a.set('state', make_enum(self.facts, STATE, state))
         for n in ('value_when_gate_on_received', 'value_when_gate_off_received', 'value'):
-            if n in a.names:
+            if a.has(n):
                 st.ctx.ranges[a.get(n).term.as_single_atom()] = (Fr(0), Fr(1))
             elif self.need_levels:
                 raise InterpError('Adsr.%s (anchor of C01/C03: the latched start levels and the output) is missing: %s' % (n, a.names))
@@ -171,7 +171,7 @@ class Dds:
     def make_lfo(self, it, st, total, index, **kw):
         l = it.sym_value(st, adt_ty(LFO), 'self')
         pa = self.make_pa(it, st, total, index, name='self.pa', **kw)
-        l.fields[l.names.index('phase_accumulator')] = pa
+        l.set('phase_accumulator', pa)
         return l
 
 
@@ -653,7 +653,7 @@ def check_pa_methods(res, facts, owner, prop):
     st2 = it.start(PAF + 'new', [fs], genv=dds.genv(total, index), state=st)
     for o in sem_iter(it.run(st2)):
         r = o.ret
-        ok = o.status == 'returned' and isinstance(r, StructV) and ('rollover_mask' not in r.names or r.get('rollover_mask').term == Poly.const(mask)) and r.get('accumulator').term == ZERO \
+        ok = o.status == 'returned' and isinstance(r, StructV) and (not r.has('rollover_mask') or r.get('rollover_mask').term == Poly.const(mask)) and r.get('accumulator').term == ZERO \
             and r.get('increment').term == ZERO and bool_of(o.ctx, r.get('rolled_over')) is False and r.get('sample_rate_hz').term == fs.term
         res.ob('R-PHASE', inst0 + ' new()', ok, 'new() = %r' % (r,), where_of(facts, PAF + 'new'), key='R-PHASE:new:' + inst0)
         n += 1
